@@ -7,6 +7,7 @@ mod replay;
 mod scen;
 mod qosm;
 mod sim;
+mod stdtimer;
 mod timeconv;
 mod winst;
 
@@ -162,6 +163,10 @@ fn main() {
             let _ = json!(null);
         }
         // vh compat --cases <ndjson> --out <file>
+        "timer" => {
+            let n = |k: &str, d: usize| arg(&args, k).and_then(|s| s.parse().ok()).unwrap_or(d);
+            stdtimer::run(&arg(&args, "--out").expect("--out"), n("--threads", 8), n("--sleeps", 40), n("--seed", 1) as u64);
+        }
         "timeconv" => {
             let rep = timeconv::run_cases(&arg(&args, "--cases").expect("--cases"), args.iter().any(|a| a == "--exhaustive"));
             std::fs::write(arg(&args, "--out").expect("--out"), serde_json::to_string(&rep).unwrap()).unwrap();
